@@ -201,34 +201,36 @@ def classify(c, events, k):
         return ""
     ev = [x for x in events[max(0, k - 1):k + 1] if x.get("e") == "obs"]
     if len(ev) == 2 and ev[0]["v"] != ev[1]["v"]:
-        def strip(tok, kinds=("s:", "k:")):          # LSP: the only difference is that strings lost their leading blanks
-            if tok[:2] in kinds:
-                t = bytes.fromhex(tok[2:]).decode("utf-8", "replace")
-                return tok[:2] + t.lstrip(" ").encode().hex() if len(t) > 1 else tok
-            return tok
+        jt, yt = ev[0]["v"], ev[1]["v"]
 
-        def octal(tok):          # OCT: the only difference is that "0o<octal>" / "0x<hex>" strings came back as integers
-            if tok.startswith("s:"):
-                t = bytes.fromhex(tok[2:]).decode("utf-8", "replace")
-                if re.fullmatch(r"0o[0-7]+", t):
-                    return "n:%d" % int(t[2:], 8)
-                if re.fullmatch(r"0x[0-9a-fA-F]+", t):
-                    return "n:%d" % int(t[2:], 16)
-            return tok
-        if [strip(t) for t in ev[0]["v"]] == ev[1]["v"] or [strip(t, ("s:",)) for t in ev[0]["v"]] == ev[1]["v"] \
-                or [strip(t, ("k:",)) for t in ev[0]["v"]] == ev[1]["v"]:
-            return "LSP"
-        if [octal(t) for t in ev[0]["v"]] == ev[1]["v"]:
-            return "OCT"
-        # KEYBLK: a key that is exactly `|` or `>` is printed unquoted and comes back as the empty key
-        if [("k:" if t in ("k:7c", "k:3e") else t) for t in ev[0]["v"]] == ev[1]["v"]:
-            return "KEYBLK"
-        # FLOWIND: a key or string holding a flow indicator is printed unquoted inside a flow collection
-        for tok in ev[0]["v"]:
+        def text(tok):
+            return bytes.fromhex(tok[2:]).decode("utf-8", "replace")
+        # FLOWIND changes the SHAPE of the value (a,b becomes two entries): decided on the printed text.  A key or
+        # string holding a flow indicator is printed unquoted inside a flow collection.
+        for tok in jt:
             if tok[:2] in ("k:", "s:"):
-                t = bytes.fromhex(tok[2:]).decode("utf-8", "replace")
-                if re.search(r"[,\[\]{}]", t) and re.search(r"[\[{,]\s*(&\w+ )?" + re.escape(t) + r"\s*[:,\]}]", c.get("yaml_out", "")):
+                t = text(tok)
+                if re.search(r"[,\[\]{}]", t) and re.search(r"[\[{,:]\s*(&\w+ )?" + re.escape(t) + r"\s*[:,\]}]", c.get("yaml_out", "")):
                     return "FLOWIND"
+        if len(jt) != len(yt):
+            return ""
+        kinds = set()
+        for a, b in zip(jt, yt):
+            if a == b:
+                continue
+            if a[:2] in ("s:", "k:") and a[:2] == b[:2] and len(text(a)) > 1 and text(a).lstrip(" ") == text(b):
+                kinds.add("LSP")        # a string / key lost its leading blanks
+            elif a[:2] == "s:" and b[:2] == "n:" and (
+                    (re.fullmatch(r"0o[0-7]+", text(a)) and b == "n:%d" % int(text(a)[2:], 8)) or
+                    (re.fullmatch(r"0x[0-9a-fA-F]+", text(a)) and b == "n:%d" % int(text(a)[2:], 16))):
+                kinds.add("OCT")        # a "0o17" / "0x1" string came back as an integer
+            elif a in ("k:7c", "k:3e") and b == "k:":
+                kinds.add("KEYBLK")     # the key `|` / `>` came back as the empty key
+            else:
+                return ""
+        for cls in ("LSP", "OCT", "KEYBLK"):
+            if cls in kinds:
+                return cls
     return ""
 
 
